@@ -45,7 +45,7 @@ def run(chk):
     got = run_cells_op(chk, op='lowdim')
     if got is None:
         return
-    recs, _ = got
+    recs, model = got
     npanic = 0
     for r in recs:
         chk.count()
@@ -93,6 +93,19 @@ def run(chk):
         if tol.ill:
             chk.extra_cov['ill_conditioned_skipped'] = chk.extra_cov.get('ill_conditioned_skipped', 0) + 1
             continue
+        # (iii') the exact rational oracle on the same (normalised) input: measure and centroid of every cell
+        exact = None
+        m = model.get(r.id)
+        mm = parse_model(m) if m and m[0] == 'NC' else None
+        if mm is not None and all(c.failed == 'ok' for c in mm['cells']):
+            exact = {c.idx: c for c in mm['cells']}
+            for i in range(inp.n):
+                ca = va['cells'][i]
+                if i in exact and (ca.volume is None or abs(ca.volume - exact[i].vol) > 2 * tol.vol):
+                    chk.violation('impl-vs-model', '%dD cell measure %s differs from the exact measure %s of the cell in the active subspace, record %d (%s) cell %d' % (
+                        d, fl(ca.volume), fl(exact[i].vol), r.id, r.family, i), rp, key='lowdim-exact')
+                    break
+            chk.extra_cov['cells_vs_exact_oracle'] = chk.extra_cov.get('cells_vs_exact_oracle', 0) + inp.n
         # (iii) closed form in 1D
         if d == 1:
             xs = sorted((inp.ngens[i][0], i) for i in range(inp.n))
@@ -135,7 +148,11 @@ def run(chk):
                 ca, cc = va['cells'][i], vc['cells'][i]
                 where = 'record %d (%s) cell %d' % (r.id, r.family, i)
                 if ca.volume is None or cc.volume is None or abs(ca.volume - cc.volume) > 2 * tol.vol:
-                    chk.violation('impl-vs-impl', '%dD cell measure %s differs from the 3D build of the unit slab %s, %s' % (d, fl(ca.volume), fl(cc.volume), where), rp, key=slabkey)
+                    # which side is wrong?  the known finding F4 is about the 3D build of extremely thin slabs only
+                    k2 = slabkey
+                    if exact is not None and i in exact and ca.volume is not None and abs(ca.volume - exact[i].vol) > 2 * tol.vol:
+                        k2 = 'lowdim-exact'
+                    chk.violation('impl-vs-impl', '%dD cell measure %s differs from the 3D build of the unit slab %s, %s' % (d, fl(ca.volume), fl(cc.volume), where), rp, key=k2)
                     continue
                 if ca.volume > 1000 * tol.vol and not close3(ca.centroid, cc.centroid, 10 * tol.pos):
                     chk.violation('impl-vs-impl', '%dD cell centroid %s differs from the 3D build of the unit slab %s, %s' % (d, fl3(ca.centroid), fl3(cc.centroid), where), rp, key=slabkey)
